@@ -7,7 +7,7 @@
    a violated clause never blocks the monitor, so one verdict names every failed clause of a trace.
 
    Clause ids are "<property>.<clause>"; a check for property X looks only at X's clauses. *)
-EXTENDS PLang
+EXTENDS Rounds
 
 Upd(f, k, v) == [x \in (DOMAIN f) \cup {k} |-> IF x = k THEN v ELSE f[x]]
 SeqWithout(s, x) == SelectSeq(s, LAMBDA y : y # x)
@@ -32,6 +32,7 @@ InitObs(P) ==
     prov  |-> EmptyFn,      \* lazy future -> number of provider runs
     dreg  |-> EmptyFn,      \* C12: (function, key) -> the in-flight deduplicated task, as the property defines it
     aband |-> {},           \* tasks given up by a runaway-recursion reset (their computation ended with RuntimeError)
+    fl    |-> <<>>,         \* compositions (sets of items) of the scheduler's flushes so far
     ovf   |-> FALSE,        \* a synchronous call has just failed with the runaway-recursion RuntimeError (scheduler reset)
     nflush |-> 0,           \* scheduler flushes of the current outermost call
     ncall |-> 0 ]
@@ -254,7 +255,8 @@ Step(S, e) ==
     [] e.e = "FlushBegin" ->
         IF e.b \notin DOMAIN S.bat THEN [S |-> S, bad |-> {"H.unknown_batch"}] ELSE
         LET B == S.bat[e.b] IN
-        [S |-> [S EXCEPT !.bat[e.b].st = "flushing", !.bat[e.b].nbegin = @ + 1],
+        [S |-> [S EXCEPT !.bat[e.b].st = "flushing", !.bat[e.b].nbegin = @ + 1,
+                         !.fl = IF e.a = 1 THEN Append(@, {e.xs[i] : i \in 1..Len(e.xs)}) ELSE @],
          bad |-> IfBad(B.nbegin = 0 /\ B.st = "pending", "C05.once") \cup
                  IfBad(e.xs = B.items, "C05.items.all") \cup
                  IfBad(e.a = 1 => (B.nbefore = 1 /\ B.nafter = 0), "C05.events") \cup
@@ -339,6 +341,11 @@ Step(S, e) ==
                     IfBad(\A b \in DOMAIN S.bat : S.bat[b].nbefore = S.bat[b].nafter, "C05.events") \cup
                     (IF YieldOnly(P) /\ TreeShaped(P) /\ SingleKind(P) /\ S.ref # <<>> /\ S.ncall = 1 /\ P.kinds[1].flush # "spawn"
                      THEN IfBad(S.nflush = CriticalPath(P, root), "C04.count") ELSE {}) \cup
+                    \* the flushes of the computation are a behaviour of the order-free reference semantics
+                    (IF RoundsDomain(P) /\ S.ref # <<>>
+                     THEN IfBad(AcceptsMaximal(P, root, S.fl), "C04.rounds") \cup
+                          IfBad(AcceptsMaximal(P, root, S.fl) => Accepts(P, root, S.fl), "C05.rounds")
+                     ELSE {}) \cup
                     IfBad(NoFaultyCtx(P) => S.cstk = <<>>, "C06.alt.end")]
 
     [] e.e = "DedupCall" ->
